@@ -14,7 +14,7 @@ Extraction "model.ml"
   Parser.parse_toks Parser.parse_literal Parser.validate Parser.prec
   Render.str_e Render.render Render.render_param Render.marshal_e Render.pg_fn
   Decode.decode
-  Driver.render_with Driver.missing Driver.has_fb
+  Driver.render_with Driver.render_tr Driver.postorder Driver.missing Driver.has_fb
   Api.lex_tokens Api.parse Api.to_postgres Api.to_param_postgres
   PgModel.pg_lex PgModel.pg_parse PgModel.pg_read
   Shape.wf Printer.pr Printer.want Scope.scope Scope.clean Count.qcnt Guard.gok DecodedShape.dsh
